@@ -95,6 +95,10 @@ def _dynamic(node, patch_):
     if not member:
         raise Exception("Member not found: %s %s" % (node.name, patch_))
 
+    sizer_found = len(tuple(x for x in node.members[:i] if x.name == len_name))
+    if not sizer_found:
+        raise Exception("Array len member not found: %s %s" % (node.name, patch_))
+
     mem = node.members[i]
     mem.bound = len_name
     mem.size = None
@@ -113,6 +117,9 @@ def _greedy(node, patch_):
     i, member = next((x for x in enumerate(node.members) if x[1].name == name), (None, None))
     if not member:
         raise Exception("Member not found: %s %s" % (node.name, patch_))
+
+    if i != len(node.members) - 1:
+        raise Exception("Greedy array must be the last member: %s %s" % (node.name, patch_))
 
     mem = node.members[i]
     mem.greedy = True
@@ -133,6 +140,9 @@ def _static(node, patch_):
     i, member = next((x for x in enumerate(node.members) if x[1].name == name), (None, None))
     if not member:
         raise Exception("Member not found: %s %s" % (node.name, patch_))
+
+    if _is_int(size) and int(size) <= 0:
+        raise Exception("Array size must be positive: %s %s" % (node.name, patch_))
 
     node.members[i].bound = None
     node.members[i].size = None
@@ -161,6 +171,8 @@ def _limited(node, patch_):
         raise Exception("Array len member not found: %s %s" % (node.name, patch_))
 
     mem = node.members[i]
+    if not mem.size:
+        raise Exception("Limited array must be a fixed array to begin with: %s %s" % (node.name, patch_))
     mem.bound = len_array
     mem.optional = False
     return node
